@@ -123,6 +123,20 @@ def check(run):
 
 # ------------------------------------------------------------------------------------------------ dfa
 def dfa(R):
+    # the class the rest of the package imports under the name Utf8Validator is the class analysed here: the name is bound
+    # by its class statement only (not re-bound to a faster stand-in further down the module)
+    m_ = R.prog.modules[MOD]
+    rebind = [x for x in ast.walk(m_.tree) if isinstance(x, (ast.Assign, ast.AugAssign, ast.AnnAssign)) and any(
+        isinstance(t_, ast.Name) and t_.id == 'Utf8Validator'
+        for t_ in (x.targets if isinstance(x, ast.Assign) else [x.target]))]
+    rebind += [x for x in ast.walk(m_.tree) if isinstance(x, (ast.Import, ast.ImportFrom)) and any(
+        (a_.asname or a_.name) == 'Utf8Validator' for a_ in x.names) and not (
+            isinstance(x, ast.ImportFrom) and (x.module or '').startswith('wsaccel'))]
+    R.ob('C05.dfa', 'Utf8Validator is the class defined (and analysed) here', not rebind,
+         'the module re-binds the name Utf8Validator (%s): the validator the parser uses is not the automaton whose table '
+         'and loop are checked - an implementation without the fail-fast / exactness guarantees can be swapped in' % (
+             [U(x)[:60] for x in rebind][:2]), func=None, node=(rebind[0] if rebind else None),
+         construct='Utf8Validator rebinding')
     consts = module_consts(R, MOD)
     table = consts.get('UTF8VALIDATOR_DFA')
     need(isinstance(table, tuple), 'UTF8VALIDATOR_DFA is not a constant tuple')
